@@ -8,18 +8,6 @@ import (
 	"github.com/rminnich/go9p"
 )
 
-func envInt(name string, def int) int {
-	if s := os.Getenv(name); s != "" {
-		var v int
-		if _, err := json.Number(s).Int64(); err == nil {
-			n, _ := json.Number(s).Int64()
-			v = int(n)
-			return v
-		}
-	}
-	return def
-}
-
 // TestReplay replays TLC-generated behaviours (action sequences of Srv9P) on the real server, runs
 // each to completion with seeded random steps, and writes the internal trace (for Srv9PTrace) and
 // the external trace (for Mon9P).
@@ -37,19 +25,16 @@ func TestReplay(t *testing.T) {
 		t.Fatal(err)
 	}
 	seed := int64(envInt("VERIF_SEED", 1))
-	tw, err := NewNDWriter(os.Getenv("VERIF_TRACE_OUT"))
-	if err != nil {
-		t.Fatal(err)
-	}
-	ew, err := NewNDWriter(os.Getenv("VERIF_EXT_OUT"))
-	if err != nil {
-		t.Fatal(err)
-	}
+	out := OpenOut()
 	lg := go9p.NewLogger(8)
 	rep := &Report{Engine: "srv-replay", Stats: map[string]any{}}
 	drift := 0
 	steps := 0
 	for _, b := range bs {
+		if out.Skip(b.ID) {
+			continue
+		}
+		out.Begin(b.ID)
 		executed := 0
 		k, left := RunCase(t, lg, cfg, seed+int64(b.ID), func(k *Case) {
 			for _, st := range b.Steps {
@@ -66,20 +51,9 @@ func TestReplay(t *testing.T) {
 			continue
 		}
 		steps += len(k.Trace)
-		tw.Put(Event{"act": "Reset", "case": b.ID, "args": []any{}})
-		for _, e := range k.Trace {
-			tw.Put(e)
-		}
-		ew.Put(Event{"ev": "reset", "case": b.ID})
-		for _, e := range k.C.Events {
-			ew.Put(e)
-		}
-		if left != "" {
-			ew.Put(Event{"ev": "leftover", "what": left})
-		}
+		out.End(b.ID, k, left, nil)
 		if k.Drift != "" {
 			drift++
-			ew.Put(Event{"ev": "note", "what": "drift: " + k.Drift})
 			if len(rep.Samples) < 3 {
 				rep.Samples = append(rep.Samples, map[string]any{"case": b.ID, "drift": k.Drift, "executed": executed})
 			}
@@ -88,8 +62,7 @@ func TestReplay(t *testing.T) {
 			rep.Samples = append(rep.Samples, map[string]any{"case": b.ID, "steps": b.Steps})
 		}
 	}
-	tw.Close()
-	ew.Close()
+	out.Close()
 	rep.Distinct = len(bs)
 	rep.Stats["steps"] = steps
 	rep.Stats["drift_cases"] = drift
